@@ -289,6 +289,45 @@ theorem mapperForKey_valid (p : MPos) (key : Bytes) (hv : keyValid key = true)
   simp only [hc, Bool.false_eq_true, if_false, h1, h2]
   cases isApp p.cur key <;> rfl
 
+/-! ## the stack/heap buffer collects every byte -/
+
+theorem SBuf.sputc_inv (N : Nat) (hN : 1 ≤ N) (hb : Gen.sbStoreBumps = true) (b : SBuf) (c : UInt8)
+    (h1 : b.data.length ≤ b.cap) (h2 : b.onStack = true → b.cap = N) (h3 : 1 ≤ b.cap) :
+    (b.sputc N c).data = b.data ++ [c] ∧ (b.sputc N c).data.length ≤ (b.sputc N c).cap ∧
+      ((b.sputc N c).onStack = true → (b.sputc N c).cap = N) ∧ 1 ≤ (b.sputc N c).cap := by
+  unfold SBuf.sputc
+  by_cases hroom : b.data.length < b.cap
+  · simp only [hroom, if_true, List.length_append, List.length_cons, List.length_nil]
+    exact ⟨trivial, by omega, h2, h3⟩
+  · have hfull : b.data.length = b.cap := by omega
+    simp only [hroom, if_false]
+    have hov : ∃ new, b.data.length < new ∧ b.overflow N c = ⟨new, b.data ++ [c], false⟩ := by
+      cases hs : b.onStack with
+      | true =>
+        have hc := h2 hs
+        have htake : b.data.take (Gen.sbStackCur N) = b.data := List.take_of_length_le (by simp [Gen.sbStackCur]; omega)
+        have hlt : b.data.length < Gen.sbStackNew N := by simp [Gen.sbStackNew]; omega
+        exact ⟨Gen.sbStackNew N, hlt, by simp [SBuf.overflow, hb, hs, htake, hlt]⟩
+      | false =>
+        have hlt : b.data.length < Gen.sbHeapNew b.data.length := by simp [Gen.sbHeapNew]; omega
+        exact ⟨Gen.sbHeapNew b.data.length, hlt, by simp [SBuf.overflow, hb, hs, hlt]⟩
+    obtain ⟨new, hlt, hov⟩ := hov
+    rw [hov]
+    refine ⟨rfl, ?_, ?_⟩
+    · simp only [List.length_append, List.length_cons, List.length_nil]; omega
+    · exact ⟨(by intro h; cases h), (by show 1 ≤ new; omega)⟩
+
+theorem SBuf.write_data (N : Nat) (hN : 1 ≤ N) (hb : Gen.sbStoreBumps = true) (s : Bytes) (b : SBuf)
+    (h1 : b.data.length ≤ b.cap) (h2 : b.onStack = true → b.cap = N) (h3 : 1 ≤ b.cap) :
+    (b.write N s).data = b.data ++ s := by
+  induction s generalizing b with
+  | nil => simp [SBuf.write]
+  | cons c cs ih =>
+    obtain ⟨e, i1, i2, i3⟩ := SBuf.sputc_inv N hN hb b c h1 h2 h3
+    have := ih (b.sputc N c) i1 i2 i3
+    simp only [SBuf.write, List.foldl_cons] at this ⊢
+    rw [this, e]; simp
+
 /-! ## map upwards, dispatch downwards -/
 
 theorem route_fuel_irrelevant (rx : Rx) (req : Option Bytes) :
